@@ -108,7 +108,7 @@ def noise_from_ctx(ctx):
 class E1:
     """One traced real function with symbolic inputs, ready for obligations."""
 
-    def __init__(self, rep, sess, fn, example_args, site, overrides=None, hyps=(), prefix="", validate_sets=None):
+    def __init__(self, rep, sess, fn, example_args, site, overrides=None, hyps=(), prefix="", validate_sets=None, post=None, soft=False, numeric_consts=False):
         self.rep, self.sess, self.fn, self.site = rep, sess, fn, site
         self.example_args = example_args
         t0 = time.time()
@@ -116,7 +116,12 @@ class E1:
         self.ins = self.tr.sym_inputs(prefix)
         if overrides:
             self.ins = overrides(self.ins)
-        self.outs, self.ctx = self.tr.run(self.ins)
+        self.outs, self.ctx = self.tr.run(self.ins, Ctx(numeric=True) if numeric_consts else None)
+        self.raw_outs = self.outs
+        if post is not None:
+            self.outs = post(self.ins, self.outs)
+        self.soft = soft
+        self.pending = []
         self.hyps = list(hyps) + list(self.ctx.assumptions)
         self.noise = noise_from_ctx(self.ctx)
         self.trace_s = time.time() - t0
@@ -125,6 +130,12 @@ class E1:
         if validate_sets:
             n = self.tr.validate(validate_sets)
             rep.extra["translator_validation_elems"] = rep.extra.get("translator_validation_elems", 0) + n
+
+    def _inconclusive(self, site, why):
+        if self.soft:
+            self.pending.append((site, why))
+        else:
+            self.rep.inconclusive_(site, why)
 
     def add_hyp(self, *hs):
         for h in hs:
@@ -135,7 +146,7 @@ class E1:
     def check_reachable(self):
         q = self.sess.reachable(self.site + ":reach", self.hyps)
         if q.verdict != "sat":
-            self.rep.inconclusive_(self.site, f"assumptions not satisfiable ({q.verdict}) - vacuous harness")
+            self._inconclusive(self.site, f"assumptions not satisfiable ({q.verdict}) - vacuous harness")
         return q
 
     def obligation(self, name, pred, extra_hyps=(), timeout_s=None, cases=None, split=False, site=None):
@@ -160,7 +171,7 @@ class E1:
             case_list = [(f"|{lab}", V.to_z3(c.all() if isinstance(c, S.SA) else c)) for lab, c in cases]
             qx = self.sess.prove(full + ":cases-exhaustive", hyps, z3.Or(*[c for _, c in case_list]), timeout_s=timeout_s)
             if qx.verdict != "unsat":
-                self.rep.inconclusive_(full, f"case split not shown exhaustive ({qx.verdict})")
+                self._inconclusive(full, f"case split not shown exhaustive ({qx.verdict})")
                 return None
         result = True
         for glab, g in goals:
@@ -173,7 +184,7 @@ class E1:
                 if q.verdict == "unsat":
                     continue
                 if q.verdict == "unknown":
-                    self.rep.inconclusive_(full + glab + clab, "solver returned unknown")
+                    self._inconclusive(full + glab + clab, "solver returned unknown")
                     result = None
                     continue
                 r = self._replay(name, full + glab + clab, pred, h2, g, q, site)
@@ -234,13 +245,13 @@ class E1:
                 S.MODE.numeric, S.MODE.tol = False, 0.0
             self.rep.replayed += 1
         except Exception as e:  # replay itself failed: a loud rejection is not a silent wrong value
-            self.rep.inconclusive_(full, f"replay raised {type(e).__name__}: {e}")
+            self._inconclusive(full, f"replay raised {type(e).__name__}: {e}")
             return None
         if ok is False or (isinstance(ok, bool) and not ok):
             self.rep.violation(site or f"{self.site}:{name}", f"obligation '{name}' fails on the real code",
                                {"obligation": full, "inputs": js, "paths": self.tr.in_paths})
             return False
-        self.rep.inconclusive_(full, "solver model did not reproduce on the real code (encoding gap or float effect)")
+        self._inconclusive(full, "solver model did not reproduce on the real code (encoding gap or float effect)")
         return None
 
     # ------------------------------------------------------------------ two-copy
@@ -284,7 +295,7 @@ class E1:
         if q.verdict == "unsat":
             return True
         if q.verdict == "unknown":
-            self.rep.inconclusive_(full, "solver returned unknown")
+            self._inconclusive(full, "solver returned unknown")
             return None
         try:
             model = q.model
@@ -297,14 +308,14 @@ class E1:
                 S.MODE.numeric, S.MODE.tol = False, 0.0
             self.rep.replayed += 1
         except Exception as e:
-            self.rep.inconclusive_(full, f"replay raised {type(e).__name__}: {e}")
+            self._inconclusive(full, f"replay raised {type(e).__name__}: {e}")
             return None
         if ok is False:
             self.rep.violation(site or f"{self.site}:{name}", f"non-interference '{name}' fails on the real code: two inputs that differ only "
                                "in data that must not matter give different outputs",
                                {"obligation": full, "inputs_A": jsA, "inputs_B": jsB, "paths": self.tr.in_paths})
             return False
-        self.rep.inconclusive_(full, "solver model did not reproduce on the real code")
+        self._inconclusive(full, "solver model did not reproduce on the real code")
         return None
 
     def _polish(self, hyps, goal):
@@ -348,3 +359,90 @@ def rand_like(example_args, seed, scale=1.0):
             return float(r)
         return jnp.asarray(r, dtype=a.dtype)
     return jax.tree_util.tree_map(f, example_args)
+
+
+# ---------------------------------------------------------------------------- mode P generalisation
+def generalise(targets, exports, prefix="G"):
+    """Replace every exported forward-pass element occurring inside `targets` by a fresh real
+    variable (z3.substitute, outermost terms first).  Sound for unsat: the fresh variables range
+    over all reals, a superset of what any network can output.
+    targets: pytree of object arrays; exports: dict name -> object array.
+    Returns (targets', exports' as fresh-variable arrays, n_substituted)."""
+    pairs = []
+    fresh = {}
+    for name, arr in exports.items():
+        arr = np.asarray(arr, dtype=object)
+        out = np.empty(arr.shape, dtype=object)
+        for idx in np.ndindex(*arr.shape) if arr.shape else [()]:
+            t = arr[idx]
+            if isinstance(t, z3.ExprRef) and not (z3.is_const(t) and t.decl().kind() == z3.Z3_OP_UNINTERPRETED) and not z3.is_rational_value(t) and not z3.is_int_value(t):
+                is_int = t.sort() == z3.IntSort()
+                v = (z3.Int if is_int else z3.Real)(f"{prefix}_{name}" + ("_" + "_".join(map(str, idx)) if idx else ""))
+                pairs.append((t, v))
+                out[idx] = v
+            else:
+                out[idx] = t
+        fresh[name] = out
+    # de-duplicate identical terms (keep first variable)
+    seen = {}
+    uniq = []
+    for t, v in pairs:
+        if t.get_id() in seen:
+            continue
+        seen[t.get_id()] = v
+        uniq.append((t, v))
+    for name, arr in fresh.items():
+        src = np.asarray(exports[name], dtype=object)
+        for idx in np.ndindex(*arr.shape) if arr.shape else [()]:
+            t = src[idx]
+            if isinstance(t, z3.ExprRef) and t.get_id() in seen:
+                arr[idx] = seen[t.get_id()]
+    uniq.sort(key=lambda p: -_term_size(p[0]))
+    return apply_pairs(targets, uniq), fresh, uniq
+
+
+def apply_pairs(targets, pairs):
+    def sub(x):
+        if isinstance(x, z3.ExprRef):
+            for t, v in pairs:
+                x = z3.substitute(x, (t, v))
+            return x
+        return x
+    leaves, td = jax.tree_util.tree_flatten(targets)
+    new = []
+    for leaf in leaves:
+        a = np.asarray(leaf, dtype=object)
+        o = np.empty(a.shape, dtype=object)
+        for idx in np.ndindex(*a.shape) if a.shape else [()]:
+            o[idx] = sub(a[idx])
+        new.append(o)
+    return jax.tree_util.tree_unflatten(td, new)
+
+
+def _term_size(t):
+    """Number of distinct DAG nodes.  (No cross-call cache: z3 AST ids are recycled after GC.)"""
+    seen, stack = set(), [t]
+    while stack:
+        e = stack.pop()
+        if e.get_id() in seen:
+            continue
+        seen.add(e.get_id())
+        stack.extend(e.children())
+    return len(seen)
+
+
+def leftover_symbols(tree, allowed):
+    """Names of z3 constants occurring in tree that are not in `allowed` (ids)."""
+    out = set()
+    seen = set()
+    stack = [e for l in jax.tree_util.tree_leaves(tree) for e in np.asarray(l, dtype=object).reshape(-1) if isinstance(e, z3.ExprRef)]
+    while stack:
+        e = stack.pop()
+        if e.get_id() in seen:
+            continue
+        seen.add(e.get_id())
+        if z3.is_const(e) and e.decl().kind() == z3.Z3_OP_UNINTERPRETED:
+            if e.get_id() not in allowed:
+                out.add(str(e))
+        stack.extend(e.children())
+    return out
